@@ -16,51 +16,61 @@ Definition ckdec_code (d : ckdec) : N :=
   match d with DNotRestarted => 0 | DRecopy => 1 | DBoundary => 2 end.
 
 (** the decisions of the control flow from the observed quantities: [hdr],
-    [mid], [oth] = salts of the -wal header before the call, right after the
-    PRAGMA (read lock re-acquired), after the bump; generations are compared
-    only for equality, so [hdr] is generation 0.  Result: (is the copy of
-    commit 6edd82b made?, branch after the bump) *)
-Definition ck_observed (midcheck postcopy : bool) (m : mode)
-           (hdr mid oth : N * N) (pre wn : N) : bool * ckdec :=
+    [mid], [post], [oth] = salts of the -wal header before the call, right after
+    the PRAGMA (read lock re-acquired), just before the bump (after the copy of
+    commit 6edd82b, if made: what the re-read of commit bb88a29 sees), after the
+    bump; generations are compared only for equality, so [hdr] is generation 0.
+    Result: (is the copy after the checkpoint made?, branch after the bump) *)
+Definition ck_observed (midcheck postcopy recheck : bool) (m : mode)
+           (hdr mid post oth : N * N) (pre wn : N) : bool * ckdec :=
   let same (a b : N * N) := N.eqb (fst a) (fst b) && N.eqb (snd a) (snd b) in
   let gmid := if same hdr mid then O else 1%nat in
+  let gpost := if same hdr post then O else 1%nat in
   let goth := if same hdr oth then O else 1%nat in
   let rb := mid_restarted midcheck m O gmid in
-  (needs_post postcopy m rb,
-   ck_decide m O goth (if N.leb wn pre then 1%nat else O) 1%nat rb).
+  let copied := needs_post postcopy m rb in
+  let rb' := if copied then post_rb recheck O gpost else rb in
+  (copied, ck_decide m O goth (if N.leb wn pre then 1%nat else O) 1%nat rb').
 
-Definition run_ck (midcheck postcopy : bool) (x : sx) : sx :=
+Definition run_ck (midcheck postcopy recheck : bool) (x : sx) : sx :=
   let m := dec_mode (asN (nthx 0 x)) in
   let hdr := (asN (nthx 1 x), asN (nthx 2 x)) in
   let mid := (asN (nthx 3 x), asN (nthx 4 x)) in
-  let oth := (asN (nthx 5 x), asN (nthx 6 x)) in
-  let r := ck_observed midcheck postcopy m hdr mid oth (asN (nthx 7 x)) (asN (nthx 8 x)) in
+  let post := (asN (nthx 5 x), asN (nthx 6 x)) in
+  let oth := (asN (nthx 7 x), asN (nthx 8 x)) in
+  let r := ck_observed midcheck postcopy recheck m hdr mid post oth (asN (nthx 9 x)) (asN (nthx 10 x)) in
   SL [sxN (ckdec_code (snd r)); sxB (fst r)].
 
-(** input  [mode; hdr_s1; hdr_s2; mid_s1; mid_s2; oth_s1; oth_s2; pre; wn]
+(** input  [mode; hdr_s1; hdr_s2; mid_s1; mid_s2; post_s1; post_s2; oth_s1; oth_s2; pre; wn]
             mode: 0 PASSIVE, 1 FULL, 2 RESTART, 3 TRUNCATE;
             pre = preCheckpointFrameN, wn = walFrameN (second column of the PRAGMA's row)
     output [d; c]  d = 0: header unchanged, return; 1: re-copy through verify; 2: boundary snapshot;
-                   c = 1 iff a verifyAndSync runs between the PRAGMA and the bump *)
-Definition machine_ck (x : sx) : sx := run_ck true true x.
+                   c = 1 iff a verifyAndSync runs between the PRAGMA and the bump
+    /repo HEAD = all three repairs *)
+Definition machine_ck (x : sx) : sx := run_ck true true true x.
 
-(** the same computation for earlier control flows (not entries) *)
-Definition machine_ck_no_postcopy (x : sx) : sx := run_ck true false x.
-Definition machine_ck_unfixed (x : sx) : sx := run_ck false false x.
+(** the same computation for the earlier control flows (not entries) *)
+Definition machine_ck_no_recheck (x : sx) : sx := run_ck true true false x.
+Definition machine_ck_no_postcopy (x : sx) : sx := run_ck true false false x.
+Definition machine_ck_unfixed (x : sx) : sx := run_ck false false false x.
 
-(** the ckpt-window scenario: FULL, header changed before the PRAGMA returned
-    (salt1 + 1), changed again by the bump (salt1 + 2), walFrameN 1 <= pre 2;
-    the ckpt-post-pragma-window scenario: FULL, header unchanged after the
-    PRAGMA, changed by the bump, walFrameN 2 <= pre 2 *)
+(** the three scenario shapes (FULL):
+    ckpt-window: header changed before the PRAGMA returned, again by the bump, walFrameN 1 <= pre 2;
+    ckpt-post-pragma-window: header unchanged until the bump, walFrameN 2 <= pre 2;
+    ckpt-post-copy-window: header unchanged at the re-read after the PRAGMA, changed
+    before the bump (during the copy), bump appended, walFrameN 2 <= pre 2 *)
 Example machine_ck_window :
-  machine_ck (SL [sxN 1; sxN 10; sxN 7; sxN 11; sxN 8; sxN 12; sxN 9; sxN 2; sxN 1]) = SL [sxN 2; sxN 0] /\
-  machine_ck_unfixed (SL [sxN 1; sxN 10; sxN 7; sxN 11; sxN 8; sxN 12; sxN 9; sxN 2; sxN 1]) = SL [sxN 1; sxN 0] /\
-  machine_ck (SL [sxN 1; sxN 10; sxN 7; sxN 10; sxN 7; sxN 11; sxN 9; sxN 2; sxN 2]) = SL [sxN 1; sxN 1] /\
-  machine_ck_no_postcopy (SL [sxN 1; sxN 10; sxN 7; sxN 10; sxN 7; sxN 11; sxN 9; sxN 2; sxN 2]) = SL [sxN 1; sxN 0].
+  let w1 := SL [sxN 1; sxN 10; sxN 7; sxN 11; sxN 8; sxN 11; sxN 8; sxN 12; sxN 9; sxN 2; sxN 1] in
+  let w2 := SL [sxN 1; sxN 10; sxN 7; sxN 10; sxN 7; sxN 10; sxN 7; sxN 11; sxN 9; sxN 2; sxN 2] in
+  let w3 := SL [sxN 1; sxN 10; sxN 7; sxN 10; sxN 7; sxN 11; sxN 8; sxN 11; sxN 8; sxN 2; sxN 2] in
+  machine_ck w1 = SL [sxN 2; sxN 0] /\ machine_ck_unfixed w1 = SL [sxN 1; sxN 0] /\
+  machine_ck w2 = SL [sxN 1; sxN 1] /\ machine_ck_no_postcopy w2 = SL [sxN 1; sxN 0] /\
+  machine_ck w3 = SL [sxN 2; sxN 1] /\ machine_ck_no_recheck w3 = SL [sxN 1; sxN 1].
 Proof. vm_compute. repeat split; reflexivity. Qed.
 
 (** the entry is the machine's own step function: [LsUnlock]/[LsSync] at [PMid]
-    are enabled according to [needs_post], [LsCmpHdr] branches by [ck_decide] *)
+    are enabled according to [needs_post], [LsUnlock] at [PPost] computes
+    [post_rb], [LsCmpHdr] branches by [ck_decide] *)
 Lemma machine_ck_is_step (data : Type) (lock : N) (midcheck postcopy recheck : bool) (s : state data)
       (m : mode) (hg pre wn : nat) (rb : bool) :
   pc data s = PBumped m hg pre wn rb ->
@@ -79,3 +89,10 @@ Lemma machine_post_is_step (data : Type) (lock : N) (midcheck postcopy recheck :
 Proof.
   intros E. split; intros A; [|intros k]; cbn; rewrite E, A; reflexivity.
 Qed.
+
+Lemma machine_recheck_is_step (data : Type) (lock : N) (midcheck postcopy recheck : bool) (s : state data)
+      (m : mode) (hg pre wn : nat) :
+  pc data s = PPost m hg pre wn ->
+  step data lock midcheck postcopy recheck s (LsUnlock data) =
+  Some (set_pc data s (PUnlocked m hg pre wn (post_rb recheck hg (gen data s)))).
+Proof. intros E. cbn. rewrite E. reflexivity. Qed.
